@@ -1,7 +1,7 @@
 (* The read-only operations: Next, Prev, At, Peek, Len, Each, IsEmpty walk the current cycle. *)
 From Coq Require Import ZArith List Bool Arith Lia Permutation.
 Import ListNotations.
-From Mds Require Import Gen.RingIdx Ring.RingModel Ring.RingSpec Ring.RingProofsBase Ring.RingProofsRep.
+From Mds Require Import Gen.RingIdx Ring.RingBase Ring.RingPlain Ring.RingSpec Ring.RingProofsBase Ring.RingProofsRep.
 
 Section Obs.
 Variable T : Type.
